@@ -459,4 +459,57 @@ theorem windQ_far (p : QPt) (r : List Pt) (hcl : Closed r) (bb : Box) (hbb : bbo
   rw [windQ_left p r hne (fun v hv => by have := (cast4 v hv).1; linarith), hcl.2]
   omega
 
+
+/-! ### crossing one edge changes the winding number by the edge's direction -/
+
+/-- an edge that crosses the height `h` strictly inside itself, at a point strictly between `x` and `x'`, counts at `(x,h)` (to
+its left) and not at `(x',h)` (to its right) -/
+theorem edge_jump (a b : Pt) (x x' h : ℚ) (hspan : ((a.2 : ℚ) < h ∧ h < b.2) ∨ ((b.2 : ℚ) < h ∧ h < a.2))
+    (hl : x < xAt a b h) (hr : xAt a b h < x') : edgeQ (x, h) a b - edgeQ (x', h) a b = gQ h b - gQ h a := by
+  have hne : (a.2 : ℚ) ≠ b.2 := by rcases hspan with c | c <;> intro e <;> rw [e] at c <;> linarith [c.1, c.2]
+  unfold edgeQ gQ
+  simp only
+  rw [orientQ_xAt a b x h hne, orientQ_xAt a b x' h hne]
+  rcases hspan with ⟨c1, c2⟩ | ⟨c1, c2⟩
+  · have hD : (0 : ℚ) < (b.2 : ℚ) - a.2 := by linarith
+    have p1 : 0 ≤ ((b.2 : ℚ) - a.2) * (xAt a b h - x) := mul_nonneg hD.le (by linarith)
+    have p2 : ¬ 0 ≤ ((b.2 : ℚ) - a.2) * (xAt a b h - x') := by
+      rw [not_le]; exact mul_neg_of_pos_of_neg hD (by linarith)
+    have nd : ¬ ((b.2 : ℚ) < h) := by linarith
+    have g1 : h ≤ (b.2 : ℚ) := c2.le
+    have g2 : ¬ h ≤ (a.2 : ℚ) := not_le.mpr c1
+    simp only [c1, g1, p1, p2, and_self, and_false, if_true, if_false, nd, false_and, g2] <;> norm_num
+  · have hD : ((b.2 : ℚ) - a.2) < 0 := by linarith
+    have p1 : ((b.2 : ℚ) - a.2) * (xAt a b h - x) ≤ 0 := mul_nonpos_of_nonpos_of_nonneg hD.le (by linarith)
+    have p2 : ¬ ((b.2 : ℚ) - a.2) * (xAt a b h - x') ≤ 0 := by
+      rw [not_le]; exact mul_pos_of_neg_of_neg hD (by linarith)
+    have nu : ¬ ((a.2 : ℚ) < h) := by linarith
+    have g1 : ¬ h ≤ (b.2 : ℚ) := not_le.mpr c1
+    have g2 : h ≤ (a.2 : ℚ) := c2.le
+    simp only [nu, false_and, if_false, c1, g2, p1, p2, and_self, and_false, if_true, g1] <;> norm_num
+
+theorem windQ_append (p : QPt) (l1 : List Pt) (a : Pt) (l2 : List Pt) :
+    windQ p (l1 ++ a :: l2) = windQ p (l1 ++ [a]) + windQ p (a :: l2) := by
+  match l1 with
+  | [] => simp [windQ]
+  | [c] => simp [windQ]
+  | c :: d :: rest =>
+    have ih := windQ_append p (d :: rest) a l2
+    simp only [List.cons_append, windQ] at ih ⊢
+    omega
+
+/-- **jump**: if exactly one edge `a → b` of the ring is crossed - transversally, at an interior point - by the horizontal
+segment from `(x,h)` to `(x',h)` and no other edge meets that segment, the winding number drops from left to right by the
+direction of the edge (`+1` for an edge going up, `-1` for one going down) -/
+theorem windQ_jump (l1 l2 : List Pt) (a b : Pt) (x x' h : ℚ) (hxx : x ≤ x')
+    (hspan : ((a.2 : ℚ) < h ∧ h < b.2) ∨ ((b.2 : ℚ) < h ∧ h < a.2)) (hl : x < xAt a b h) (hr : xAt a b h < x')
+    (hc1 : ∀ s ∈ segs (l1 ++ [a]), RowClear s.1 s.2 x x' h) (hc2 : ∀ s ∈ segs (b :: l2), RowClear s.1 s.2 x x' h) :
+    windQ (x, h) (l1 ++ a :: b :: l2) - windQ (x', h) (l1 ++ a :: b :: l2) = gQ h b - gQ h a := by
+  rw [windQ_append (x, h), windQ_append (x', h)]
+  have e1 := windQ_hmove (l1 ++ [a]) x x' h hxx hc1
+  have e2 := windQ_hmove (b :: l2) x x' h hxx hc2
+  have ej := edge_jump a b x x' h hspan hl hr
+  simp only [windQ] at e1 e2 ⊢
+  omega
+
 end SpVerif.Geom
